@@ -424,6 +424,17 @@ func (s cscen) scenario() dfs.Scenario {
 				rest = append(rest, v.(string))
 				seen[v.(string)]++
 			}
+			// boundedness: what is still queued at the end never exceeds the capacity (with consumers that
+			// take nothing, everything accepted is still there: two producers racing for the last free
+			// slot must not both be accepted)
+			if lim := s.capa; lim > 0 {
+				if s.double {
+					lim *= 2
+				}
+				if len(rest) > lim {
+					return fmt.Sprintf("bound exceeded: %d elements are queued (%v) in a queue of capacity %d", len(rest), rest, s.capa)
+				}
+			}
 			for e, n := range seen {
 				if n != 1 {
 					return fmt.Sprintf("element %s accounted %d times (delivered %v evicted %v queued %v)", e, n, got, over, rest)
@@ -471,7 +482,7 @@ func cscens(thorough bool) []cscen {
 		for _, capa := range []int{0, 1, 2} {
 			for _, force := range []bool{false, true} {
 				for _, prods := range [][]int{{1}, {2}, {1, 1}, {2, 1}} {
-					for _, cons := range [][]int{{1}, {2}, {1, 1}} {
+					for _, cons := range [][]int{{0}, {1}, {2}, {1, 1}} {
 						for _, timed := range []int{0, 30} {
 							for _, cf := range []bool{true, false} {
 								if !thorough && len(prods) == 2 && len(cons) == 2 && prods[0] == 2 {
